@@ -126,10 +126,11 @@ def run(ctx):
     res.assumptions = ["EACCES on stat is represented by the vanished-member case (same code path: no stat result)",
                        "the '.fifo' fault is a dot-named socket; real FIFOs in the places the server reads (link file, side file, .cap file) are the faults dot-fifo, sidecar-fifo, cap-fifo"]
     rng = ctx.rng
-    combos = [[f] for f in FAULTS]
+    combos = [[f] for f in FAULTS] + [["latin1-dangling"]]      # (the non-UTF-8 name twice: once per logging function)
     for _ in range(ctx.n(6, 40)):
         combos.append(rng.sample(FAULTS, 2))
     model_lines, checks = [], []
+    latin1_runs = [0]
     for ci, faults in enumerate(combos):
         tree = pyg.Tree()
         try:
@@ -144,7 +145,11 @@ def run(ctx):
                 tree.write(d + "/a.txt.abstract", b"abstract of a\n")
             planted = [plant(tree, "f", f) for f in faults]
             # every third combination (and the non-UTF-8 name always) logs through the real file / syslog logging functions
-            pyg.LOG_THROUGH = "file" if faults == ["latin1-dangling"] else ("file", "syslog")[ci % 2] if (ci % 3 == 0 or "latin1-dangling" in faults) else None
+            if faults == ["latin1-dangling"]:
+                latin1_runs[0] += 1
+                pyg.LOG_THROUGH = ("file", "syslog")[latin1_runs[0] % 2]
+            else:
+                pyg.LOG_THROUGH = ("file", "syslog")[ci % 2] if (ci % 3 == 0 or "latin1-dangling" in faults) else None
             for hname, handlers, umn in (("umn", None, True), ("dir", pyg.DIR_HANDLERS, False), ("full", pyg.FULL_HANDLERS, True)):
                 if hname == "full" and not (ci % 3 == 0 or any(f.endswith((".pyg", ".zip")) for f in faults)):
                     continue      # the full list (ZIP, TAL, PYG, scripts, decompression) on a third of the combinations and on its own file types
